@@ -9,6 +9,8 @@
 package remux
 
 import (
+	"bytes"
+
 	"github.com/q191201771/lal/pkg/base"
 )
 
@@ -59,6 +61,10 @@ type GopCache struct {
 	VideoSeqHeader                    []byte
 	AacSeqHeader                      []byte
 
+	// payloads of the cached sequence headers, to notice a change of parameter sets
+	videoSeqHeaderPayload []byte
+	aacSeqHeaderPayload   []byte
+
 	gopRing              []Gop
 	gopRingFirst         int
 	gopRingLast          int
@@ -105,12 +111,14 @@ func (gc *GopCache) Feed(msg base.RtmpMsg, b []byte) bool {
 		return true
 	case base.RtmpTypeIdAudio:
 		if msg.IsAacSeqHeader() {
+			gc.dropGopsIfSeqHeaderChanged(&gc.aacSeqHeaderPayload, msg.Payload)
 			gc.AacSeqHeader = b
 			Log.Debugf("[%s] cache %s aac seq header. size:%d", gc.uniqueKey, gc.t, len(gc.AacSeqHeader))
 			return true
 		}
 	case base.RtmpTypeIdVideo:
 		if msg.IsVideoKeySeqHeader() {
+			gc.dropGopsIfSeqHeaderChanged(&gc.videoSeqHeaderPayload, msg.Payload)
 			gc.VideoSeqHeader = b
 			Log.Debugf("[%s] cache %s video seq header. size:%d", gc.uniqueKey, gc.t, len(gc.VideoSeqHeader))
 			return true
@@ -144,8 +152,23 @@ func (gc *GopCache) Clear() {
 	gc.MetadataEnsureWithoutSetDataFrame = nil
 	gc.VideoSeqHeader = nil
 	gc.AacSeqHeader = nil
+	gc.videoSeqHeaderPayload = nil
+	gc.aacSeqHeaderPayload = nil
 	gc.gopRingLast = 0
 	gc.gopRingFirst = 0
+}
+
+// dropGopsIfSeqHeaderChanged
+//
+// The cached GOPs were coded under the previous sequence header. Once a header
+// with other content arrives they must not be replayed after the new one: a
+// joiner could not decode them.
+func (gc *GopCache) dropGopsIfSeqHeaderChanged(prev *[]byte, cur []byte) {
+	if *prev != nil && !bytes.Equal(*prev, cur) {
+		gc.gopRingLast = 0
+		gc.gopRingFirst = 0
+	}
+	*prev = append((*prev)[:0], cur...)
 }
 
 // ---------------------------------------------------------------------------------------------------------------------
